@@ -769,3 +769,176 @@ fn extend_lpm<'a, P: Prefix, R>(
         DifferenceIndex::FirstL(_, _) | DifferenceIndex::OnlyL(_) => (x, lpm_r),
     })
 }
+
+/// Verification hooks: stack injection / read-back and wrappers around the private helper
+/// functions. Only compiled with feature `verif-hooks`.
+///
+/// Stack entries are encoded as `(kind, l, r)` with kind 0 = Both, 1 = FirstL, 2 = FirstR,
+/// 3 = OnlyL (r unused).
+#[cfg(feature = "verif-hooks")]
+#[allow(missing_docs)]
+#[doc(hidden)]
+pub mod __verif {
+    use super::*;
+
+    pub type Enc = (u8, usize, usize);
+    pub type LpmPtr<P, T> = Option<(*const P, *const T)>;
+
+    fn enc(x: &DifferenceIndex) -> Enc {
+        match x {
+            DifferenceIndex::Both(l, r) => (0, *l, *r),
+            DifferenceIndex::FirstL(l, r) => (1, *l, *r),
+            DifferenceIndex::FirstR(l, r) => (2, *l, *r),
+            DifferenceIndex::OnlyL(l) => (3, *l, 0),
+        }
+    }
+    fn dec(x: Enc) -> DifferenceIndex {
+        match x.0 {
+            0 => DifferenceIndex::Both(x.1, x.2),
+            1 => DifferenceIndex::FirstL(x.1, x.2),
+            2 => DifferenceIndex::FirstR(x.1, x.2),
+            _ => DifferenceIndex::OnlyL(x.1),
+        }
+    }
+    fn lpm_ptr<P, T>(x: &Option<(&P, &T)>) -> LpmPtr<P, T> {
+        x.map(|(p, t)| (p as *const P, t as *const T))
+    }
+
+    pub fn next_indices<P: Prefix, L, R>(
+        l: &PrefixMap<P, L>,
+        r: &PrefixMap<P, R>,
+        node_l: Option<usize>,
+        node_r: Option<usize>,
+    ) -> Vec<Enc> {
+        super::next_indices(&l.table, &r.table, node_l, node_r)
+            .iter()
+            .map(enc)
+            .collect()
+    }
+    pub fn next_indices_first_a<P: Prefix, L, R>(
+        l: &PrefixMap<P, L>,
+        r: &PrefixMap<P, R>,
+        nl: usize,
+        nr: usize,
+    ) -> Vec<Enc> {
+        let n = &l.table[nl];
+        super::next_indices_first_a(&l.table, &r.table, nl, n.left, n.right, nr)
+            .iter()
+            .map(enc)
+            .collect()
+    }
+    pub fn next_indices_first_b<P: Prefix, L, R>(
+        l: &PrefixMap<P, L>,
+        r: &PrefixMap<P, R>,
+        nl: usize,
+        nr: usize,
+    ) -> Vec<Enc> {
+        let n = &r.table[nr];
+        super::next_indices_first_b(&l.table, &r.table, nl, nr, n.left, n.right)
+            .iter()
+            .map(enc)
+            .collect()
+    }
+
+    fn mk_stack<'a, P: Prefix, R>(
+        r: &'a PrefixMap<P, R>,
+        stack: &[(Enc, Option<usize>)],
+        cap: usize,
+    ) -> Vec<(DifferenceIndex, Option<(&'a P, &'a R)>)> {
+        let mut nodes = Vec::with_capacity(cap.max(stack.len()));
+        for (e, lr) in stack {
+            nodes.push((dec(*e), lr.and_then(|i| r.table[i].prefix_value())));
+        }
+        nodes
+    }
+    fn mk_plain(stack: &[Enc], cap: usize) -> Vec<DifferenceIndex> {
+        let mut nodes = Vec::with_capacity(cap.max(stack.len()));
+        for e in stack {
+            nodes.push(dec(*e));
+        }
+        nodes
+    }
+
+    impl<'a, P: Prefix, L, R> Difference<'a, P, L, R> {
+        pub fn __verif_from(
+            l: &'a PrefixMap<P, L>,
+            r: &'a PrefixMap<P, R>,
+            stack: &[(Enc, Option<usize>)],
+            cap: usize,
+        ) -> Self {
+            Difference {
+                table_l: &l.table,
+                table_r: &r.table,
+                nodes: mk_stack(r, stack, cap),
+            }
+        }
+    }
+    impl<P, L, R> Difference<'_, P, L, R> {
+        pub fn __verif_stack_len(&self) -> usize {
+            self.nodes.len()
+        }
+        pub fn __verif_stack_entry(&self, i: usize) -> (Enc, LpmPtr<P, R>) {
+            let (x, a) = &self.nodes[i];
+            (enc(x), lpm_ptr(a))
+        }
+    }
+    impl<'a, P: Prefix, L, R> DifferenceMut<'a, P, L, R> {
+        pub fn __verif_from(
+            l: &'a mut PrefixMap<P, L>,
+            r: &'a PrefixMap<P, R>,
+            stack: &[(Enc, Option<usize>)],
+            cap: usize,
+        ) -> Self {
+            unsafe { DifferenceMut::new(&l.table, &r.table, mk_stack(r, stack, cap)) }
+        }
+    }
+    impl<P, L, R> DifferenceMut<'_, P, L, R> {
+        pub fn __verif_stack_len(&self) -> usize {
+            self.nodes.len()
+        }
+        pub fn __verif_stack_entry(&self, i: usize) -> (Enc, LpmPtr<P, R>) {
+            let (x, a) = &self.nodes[i];
+            (enc(x), lpm_ptr(a))
+        }
+    }
+    impl<'a, P: Prefix, L, R> CoveringDifference<'a, P, L, R> {
+        pub fn __verif_from(
+            l: &'a PrefixMap<P, L>,
+            r: &'a PrefixMap<P, R>,
+            stack: &[Enc],
+            cap: usize,
+        ) -> Self {
+            CoveringDifference {
+                table_l: &l.table,
+                table_r: &r.table,
+                nodes: mk_plain(stack, cap),
+            }
+        }
+    }
+    impl<P, L, R> CoveringDifference<'_, P, L, R> {
+        pub fn __verif_stack_len(&self) -> usize {
+            self.nodes.len()
+        }
+        pub fn __verif_stack_entry(&self, i: usize) -> Enc {
+            enc(&self.nodes[i])
+        }
+    }
+    impl<'a, P: Prefix, L, R> CoveringDifferenceMut<'a, P, L, R> {
+        pub fn __verif_from(
+            l: &'a mut PrefixMap<P, L>,
+            r: &'a PrefixMap<P, R>,
+            stack: &[Enc],
+            cap: usize,
+        ) -> Self {
+            unsafe { CoveringDifferenceMut::new(&l.table, &r.table, mk_plain(stack, cap)) }
+        }
+    }
+    impl<P, L, R> CoveringDifferenceMut<'_, P, L, R> {
+        pub fn __verif_stack_len(&self) -> usize {
+            self.nodes.len()
+        }
+        pub fn __verif_stack_entry(&self, i: usize) -> Enc {
+            enc(&self.nodes[i])
+        }
+    }
+}
